@@ -142,7 +142,7 @@ fn run(ctx: &mut Ctx) {
         }
         // per-block defects
         for k in 0..seed.channels.len() {
-            for d in [1i32, -1, 100] {
+            for d in [1i32, -1, 100, 128, 256, 512, 32768] {
                 let mut p = seed.clone();
                 p.channels[k].0 = (p.channels[k].0 as i32 + d) as u16;
                 check(ctx, &p.encode(), "block index off");
@@ -154,7 +154,7 @@ fn run(ctx: &mut Ctx) {
             let mut b = sb.clone();
             let per = 4 + 2 * seed.requested_samples as usize + if seed.requested_samples % 2 == 1 { 2 } else { 0 };
             let off = 52 + per * k + 2;
-            for d in [1u16, 0xFFFF] {
+            for d in [1u16, 0xFFFF, 512, 1024, 2048, 4096, 8192, 16384, 32768, 0xFE00, 256] {
                 let v = u16::from_le_bytes([b[off], b[off + 1]]).wrapping_add(d);
                 b[off..off + 2].copy_from_slice(&v.to_le_bytes());
                 check(ctx, &b, "block size field");
